@@ -107,6 +107,15 @@ class Timeout(BaseException):
     pass
 
 
+def tlc(*a, **kw):
+    """run_tlc; a run that fails is repeated once (on a crowded machine the JVM sometimes cannot
+    start its threads): a real error of a spec fails twice"""
+    try:
+        return run_tlc(*a, **kw)
+    except MachineryError:
+        return run_tlc(*a, **kw)
+
+
 def _on_alarm(signum, frame):
     raise Timeout()
 
@@ -458,8 +467,10 @@ class Sweep:
         self.iso = None
         self.evaluations = 0
         self.t0 = time.time()
-        self.suspect = 0          # outcomes seen so far that the property forbids (timeouts not yet re-run)
-        self.cut = False          # the time budget ran out on a tree that already shows violations
+        self.budget = BUDGET_S[run.tier if run.tier in BUDGET_S else "thorough"]
+        self.definite = 0         # outcomes seen so far that the property forbids whatever a re-run says
+        self.hanging = []         # cases that did not end in time (no huge int among the arguments), not yet re-run
+        self.cut = False          # the time budget ran out on a tree that shows violations
         self.skipped = 0
 
     def close(self):
@@ -477,7 +488,7 @@ class Sweep:
         if not jobs:
             return []
         if self.iso is None:
-            self.iso = self.ctx.Pool(8, initializer=_init_worker, initargs=(self.sandbox,))
+            self.iso = self.ctx.Pool(16, initializer=_init_worker, initargs=(self.sandbox,))
         self.evaluations += len(jobs)
         return self.iso.map(_isolated, jobs, chunksize=1)
 
@@ -490,9 +501,10 @@ class Sweep:
         # neighbouring jobs (one site, one slow argument) go to different chunks: a run of
         # calls that each wait for the alarm would otherwise be served by a single worker
         # A tree on which many cases hang would keep the check busy for half an hour (2 s per case,
-        # 10 s per re-run).  Once outcomes the property forbids have been seen and BUDGET_S are
-        # spent, the remaining cases are not executed ("skipped", no event): the check then reports
-        # what it has and never exits 0 (see run()).  A tree without such outcomes is always run in full.
+        # 10 s per re-run).  Once the time budget is spent AND the tree is known to violate the
+        # property (a host exception was seen, or one of the cases that did not end does not end
+        # when re-run alone either), the remaining cases are not executed ("skipped", no event):
+        # the check reports what it has and never exits 0 (see run()).  Every other tree is run in full.
         if self.cut:
             self.skipped += len(jobs)
             return [dict(SKIPPED) for _ in jobs]
@@ -502,8 +514,12 @@ class Sweep:
         for c, r in enumerate(self.pool.imap(_chunk, parts)):
             for j, (o, d, ca) in enumerate(r):
                 res[c + j * k] = {"out": o, "detail": d, "caught": ca, "scaled": ""}
-                self.suspect += suspicious(parts[c][j], o)
-            if self.suspect and time.time() - self.t0 > BUDGET_S and c + 1 < k:
+                sus = suspicious(parts[c][j], o)
+                if sus == 2:
+                    self.definite += 1
+                elif sus == 1:
+                    self.hanging.append(parts[c][j])
+            if time.time() - self.t0 > self.budget and c + 1 < k and (self.definite or self.hangs_alone()):
                 self.cut = True
                 self.pool.terminate()
                 break
@@ -536,6 +552,14 @@ class Sweep:
             res[i]["out"], res[i]["detail"] = out, detail
         return res
 
+    def hangs_alone(self):
+        """over budget: do the cases that did not end really hang?  (a handful would not have cost
+        the time; three of them are re-run alone, the others forgotten if these end)"""
+        if len(self.hanging) < 8:
+            return False
+        probe, self.hanging = self.hanging[:3], []
+        return any(out in ("timeout", "host:MemoryError") for out, _ in self._alone(probe))
+
     def caught(self, jobs):
         if self.cut:
             return [""] * len(jobs)
@@ -545,18 +569,18 @@ class Sweep:
 
 MAX_ALONE = 64
 REPS = 2
-BUDGET_S = 150
+BUDGET_S = {"quick": 150, "thorough": 1500}
 SKIPPED = {"out": "skipped", "detail": "", "caught": "", "scaled": ""}
 
 
 def suspicious(job, out):
-    """an outcome the property forbids (a timeout counts unless the case holds a huge int: work
-    proportional to a magnitude is settled by the scaled re-run)"""
+    """2 = an outcome the property forbids, 1 = no outcome in time (unless the case holds a huge
+    int: work proportional to a magnitude is settled by the scaled re-run), 0 = allowed"""
     if out in ("value", "error:ok", "host:MemoryError"):
         return 0
     if out == "timeout":
         return 0 if any(t in HUGE_TAGS for t in job[2]) else 1
-    return 1
+    return 2
 
 
 def group_key(job):
@@ -676,7 +700,7 @@ def validate(run, events, label, parts=3):
         with open(path, "w") as f:
             for e in evs:
                 f.write(json.dumps(e) + "\n")
-        return run_tlc("Natives_Trace", workers=1, env={"TRACE_FILE": path}, timeout=3000, coverage=True)
+        return tlc("Natives_Trace", workers=1, env={"TRACE_FILE": path}, timeout=3000, coverage=True)
 
     try:
         with concurrent.futures.ThreadPoolExecutor(len(cuts)) as ex:
@@ -729,16 +753,16 @@ def run(run):
     t0 = time.time()
     # ---- binding A: the cases TLC generates from Forms.tla
     with concurrent.futures.ThreadPoolExecutor(2) as ex:      # the two models side by side
-        graph_run = ex.submit(run_tlc, "FormsGraph", "FormsGraph_quick" if quick else "FormsGraph_thorough",
+        graph_run = ex.submit(tlc, "FormsGraph", "FormsGraph_quick" if quick else "FormsGraph_thorough",
                               coverage=False, timeout=3000)
-        tlc = run_tlc("Forms", "Forms_quick" if quick else "Forms_thorough", coverage=True, timeout=3000)
+        forms_run = tlc("Forms", "Forms_quick" if quick else "Forms_thorough", coverage=True, timeout=3000)
         graph_run = graph_run.result()
-    run.add_tlc(tlc, "Forms (every form applied to every pool tuple; NotStuck)")
-    forms = tlc.records("FORMS")[0]
-    pool = tlc.records("POOL")[0]
+    run.add_tlc(forms_run, "Forms (every form applied to every pool tuple; NotStuck)")
+    forms = forms_run.records("FORMS")[0]
+    pool = forms_run.records("POOL")[0]
     if pool != POOL_TAGS:
         raise MachineryError("the pool of FormsOps.tla and of the harness differ")
-    cases = sorted(set(tuple(c) for c in tlc.records("CASE")))
+    cases = sorted(set(tuple(c) for c in forms_run.records("CASE")))
     if not cases:
         raise MachineryError("TLC exported no cases")
     if any(c[4] == 2 for c in cases):
@@ -749,6 +773,7 @@ def run(run):
         form_jobs.append(("form", fm["text"], tuple(pool[x - 1] for x in (i, j, k)[:fm["ar"]])))
     sw = Sweep(run)
     try:
+        sites = sw.sites()
         fres = sw.execute(form_jobs)
         events, meta = [], []
         for (f, i, j, k, c), job, r in zip(cases, form_jobs, fres):
@@ -808,7 +833,6 @@ def run(run):
         nform = len(events)
         t1 = time.time()
         # ---- binding B: the function sweep over the live environments
-        sites = sw.sites()
         fjobs, reps, population3 = function_jobs(run, sites, rng, quick)
         gres = sw.execute(fjobs)
         groups = {}
@@ -840,7 +864,7 @@ def run(run):
     res = validate(run, events, "Natives_Trace (recorded outcomes of forms and functions)")
     bad = report(run, res, events, meta)
     if cut:
-        run.cov["incomplete"] = {"cases_not_executed": skipped, "budget_s": BUDGET_S,
+        run.cov["incomplete"] = {"cases_not_executed": skipped, "budget_s": BUDGET_S[run.tier if run.tier in BUDGET_S else "thorough"],
                                  "why": "outcomes the property forbids had been seen when the time budget ran out"}
         if not bad:
             raise MachineryError("the time budget ran out after suspected violations, none of which was confirmed: "
@@ -860,15 +884,15 @@ def run(run):
         outcomes[e["out"]] = outcomes.get(e["out"], 0) + e["n"]
     run.sample({"form_case": meta[nform // 3]["case"], "outcome": events[nform // 3]["out"]})
     run.sample({"form_case": meta[nform // 2]["case"], "outcome": events[nform // 2]["out"]})
-    k = nform + (len(events) - nform) // 2
-    run.sample({"function_event": events[k]})
-    run.sample({"function_event": events[-1]})
+    if len(events) > nform:          # (no function event when the time budget ended the run early)
+        run.sample({"function_event": events[nform + (len(events) - nform) // 2]})
+        run.sample({"function_event": events[-1]})
     ncalls = sum(e["n"] for e in events)        # executed cases (forms, forms on the wide pool, graph programs, calls)
     run.cov["traces_validated_against_impl"] = ncalls
     run.cov["evaluations"] = evaluations
     run.cov["distinct_nontrivial"] = ncalls - trivial
-    run.cov["rule"] = ("distinct (form, argument tuple) cases generated by TLC plus distinct (function site, "
-                       "argument tuple) calls, minus the calls rejected with 'Too many arguments' when the "
+    run.cov["rule"] = ("distinct (form, argument tuple) cases and graph programs generated by TLC, the forms applied "
+                       "to the wide pool, plus distinct (function site, argument tuple) calls, minus the calls rejected with 'Too many arguments' when the "
                        "arguments are bound; evaluations also counts the catch probes and the re-runs")
     run.cov["exhaustive"] = not quick
     run.cov["forms"] = len(forms)
